@@ -337,8 +337,34 @@ func (r *wireRun) prefixes(kind string, mk func() tds.Package, body []byte, f in
 }
 
 func (r *wireRun) generic(k wkind, small bool, doPrefix bool) {
+	r.genericWith(k, small, doPrefix, "", 0)
+}
+
+// boundaryLens: the lengths at which a length prefix of a string field of at most max bytes turns over
+func boundaryLens(max int) []int {
+	var out []int
+	for _, n := range []int{0, 1, 255, 256, 65535, 65536, 65537} {
+		if n <= max {
+			out = append(out, n)
+		}
+	}
+	return out
+}
+
+// genericWith: like generic; field `force` (if any) gets exactly forceLen bytes
+func (r *wireRun) genericWith(k wkind, small bool, doPrefix bool, force string, forceLen int) {
 	r.scn()
 	f := k.random(r.rng, small)
+	for try := 0; force != "" && try < 40; try++ {
+		f[force] = randText(r.rng, forceLen)
+		if k.fix != nil {
+			k.fix(r.rng, f) // may blank an optional part: draw the other fields again
+		}
+		if len(f[force].([]int)) == forceLen {
+			break
+		}
+		f = k.random(r.rng, small)
+	}
 	pkg, _ := tds.LookupPackage(tds.Token(k.token))
 	setFields(pkg, k, f)
 	wst, wbytes := "none", []byte(nil)
@@ -633,8 +659,13 @@ func dataShape(b []byte, cols []wCol) (nulls []bool, statuses []int) {
 // packages with unexported state
 
 func (r *wireRun) envchange(doPrefix bool) {
+	r.envchangeWith(doPrefix, r.rng.Intn(4), -1)
+}
+
+// envchangeWith: n members; pattern >= 0 says bit by bit which new / old values are empty
+// (bit 2i: new value of member i, bit 2i+1: old value)
+func (r *wireRun) envchangeWith(doPrefix bool, n int, pattern int) {
 	r.scn()
-	n := r.rng.Intn(4)
 	var ms [][3]string
 	members := []map[string]interface{}{}
 	for i := 0; i < n; i++ {
@@ -646,6 +677,15 @@ func (r *wireRun) envchange(doPrefix bool) {
 		}
 		if t == 4 {
 			nv = ints([]byte(itoa(512 + r.rng.Intn(8000))))
+		}
+		if pattern >= 0 {
+			nv, ov = randText(r.rng, 1+r.rng.Intn(6)), randText(r.rng, 1+r.rng.Intn(6))
+			if pattern>>(2*i)&1 == 1 {
+				nv = []int{}
+			}
+			if pattern>>(2*i+1)&1 == 1 {
+				ov = []int{}
+			}
 		}
 		ms = append(ms, [3]string{string([]byte{byte(t)}), string(toBytes(nv)), string(toBytes(ov))})
 		members = append(members, map[string]interface{}{"typ": t, "new": nv, "old": ov})
@@ -1053,6 +1093,30 @@ func wireMain(args []string) error {
 		r.orderby(*prefix)
 	}
 	if !*prefix {
+		// every string field of every kind at the lengths where its length prefix turns over
+		// ("all string lengths 0..max of each length prefix": the boundaries, directed)
+		for _, k := range wkinds {
+			for _, fd := range k.fields {
+				if fd.typ != "str" && fd.typ != "bytes" {
+					continue
+				}
+				for _, n := range boundaryLens(fd.maxLen) {
+					reps := 1
+					if n > 255 {
+						reps = 3 // optional parts vary with the other (random) fields
+					}
+					for i := 0; i < reps; i++ {
+						r.genericWith(k, true, false, fd.name, n)
+					}
+				}
+			}
+		}
+		// ENVCHANGE: every pattern of empty / non-empty values over 1..3 members
+		for n := 1; n <= 3; n++ {
+			for pat := 0; pat < 1<<(2*n); pat++ {
+				r.envchangeWith(false, n, pat)
+			}
+		}
 		for c := 0; c <= 106; c++ { // every single request capability
 			r.capability(c)
 		}
